@@ -3,19 +3,14 @@
 use crate::obs::Ctx;
 
 pub mod c01;
-#[cfg(feature = "kmer-tables")]
 pub mod c02;
 pub mod c03;
-#[cfg(feature = "kmer-tables")]
 pub mod c04;
 pub mod c05;
 pub mod c06;
 pub mod c07;
-#[cfg(feature = "kmer-tables")]
 pub mod c08;
-#[cfg(feature = "kmer-tables")]
 pub mod c09;
-#[cfg(feature = "kmer-tables")]
 pub mod c10;
 pub mod c11;
 pub mod c12;
@@ -23,7 +18,6 @@ pub mod c13;
 pub mod c14;
 pub mod c15;
 pub mod c16;
-#[cfg(feature = "kmer-tables")]
 pub mod c18;
 pub mod c19;
 pub mod c20;
@@ -31,19 +25,14 @@ pub mod c20;
 pub fn run(ctx: &mut Ctx) -> bool {
     match ctx.prop.as_str() {
         "C01" => c01::run(ctx),
-        #[cfg(feature = "kmer-tables")]
         "C02" => c02::run(ctx),
         "C03" => c03::run(ctx),
-        #[cfg(feature = "kmer-tables")]
         "C04" => c04::run(ctx),
         "C05" => c05::run(ctx),
         "C06" => c06::run(ctx),
         "C07" => c07::run(ctx),
-        #[cfg(feature = "kmer-tables")]
         "C08" => c08::run(ctx),
-        #[cfg(feature = "kmer-tables")]
         "C09" => c09::run(ctx),
-        #[cfg(feature = "kmer-tables")]
         "C10" => c10::run(ctx),
         "C11" => c11::run(ctx),
         "C12" => c12::run(ctx),
@@ -51,7 +40,6 @@ pub fn run(ctx: &mut Ctx) -> bool {
         "C14" => c14::run(ctx),
         "C15" => c15::run(ctx),
         "C16" => c16::run(ctx),
-        #[cfg(feature = "kmer-tables")]
         "C18" => c18::run(ctx),
         "C19" => c19::run(ctx),
         "C20" => c20::run(ctx),
